@@ -252,17 +252,22 @@ def run(tier, seed):
     # ------------------------------------------------------------------ ROTATION
     A = symalg.Alg(prog)
     rz = prog.fn('bxdecay0::rotate_zyz')
-    p = {'x': Poly.sym('px'), 'y': Poly.sym('py'), 'z': Poly.sym('pz')}
-    r = A.call(rz, [p, Poly.sym('a1'), Poly.sym('a2'), Poly.sym('a3')])
-    M = symalg.linear_map(r, ['px', 'py', 'pz'])
-    ok, why = symalg.is_rotation(M)
-    rep.add('ROTATION', 'rotate_zyz:orthogonal', where(rz), 'rotate_zyz(p, a1, a2, a3) = A p with A^T A = 1 and det A = 1 for '
-            'all angles (polynomial identity modulo sin^2 + cos^2 = 1)', ok, why or None)
-    ez = A.call(rz, [{'x': Poly(), 'y': Poly(), 'z': Poly.const(1)}, Poly.sym('a1'), Poly.sym('a2'), Poly.sym('a3')])
-    okz = ez['x'] == Poly.sym('c:a1') * Poly.sym('s:a2') and ez['y'] == Poly.sym('s:a1') * Poly.sym('s:a2') and \
-        ez['z'] == Poly.sym('c:a2')
-    rep.add('ROTATION', 'rotate_zyz:polar-axis', where(rz), 'rotate_zyz(e_z, phi, theta, psi) = (cos phi sin theta, sin phi sin '
-            'theta, cos theta): the image of the z axis has polar angles (theta, phi)', okz, None if okz else repr(ez))
+    anames = dict(zip([q['name'] for q in rz['params'][1:4]], ('a1', 'a2', 'a3')))
+    pths = A.paths(rz, lambda: [{'x': Poly.sym('px'), 'y': Poly.sym('py'), 'z': Poly.sym('pz')},
+                                Poly.sym('a1'), Poly.sym('a2'), Poly.sym('a3')])
+    for dec, r in pths:
+        tag = '' if len(pths) == 1 else ':' + ','.join('%s%s' % ('' if t else '!', l) for l, _, t, _ in dec)
+        facts = symalg.zero_angle_facts(dec, anames)
+        M = [[x.subst(facts) for x in row] for row in symalg.linear_map(r, ['px', 'py', 'pz'])]
+        ok, why = symalg.is_rotation(M)
+        rep.add('ROTATION', 'rotate_zyz:orthogonal' + tag, where(rz), 'rotate_zyz(p, a1, a2, a3) = A p with A^T A = 1 and det A = 1 '
+                'for all angles (polynomial identity modulo sin^2 + cos^2 = 1) on %s' % symalg.describe(dec), ok, why or None)
+        ez = [M[i][2] for i in range(3)]
+        wz = [x.subst(facts) for x in (Poly.sym('c:a1') * Poly.sym('s:a2'), Poly.sym('s:a1') * Poly.sym('s:a2'), Poly.sym('c:a2'))]
+        okz = ez == wz
+        rep.add('ROTATION', 'rotate_zyz:polar-axis' + tag, where(rz), 'rotate_zyz(e_z, phi, theta, psi) = (cos phi sin theta, sin '
+                'phi sin theta, cos theta): the image of the z axis has polar angles (theta, phi), on %s' % symalg.describe(dec),
+                okz, None if okz else repr(ez))
     _mutation_blocks(rep, prog, rot, pm_, A)
     _update_internals(rep, prog)
     _sampling(rep, prog, rot, pm_)
@@ -556,6 +561,11 @@ def _mutation_blocks(rep, prog, rot, pm, A):
         try:
             V = fa.ex(rot, L.decl[vid]['init'], {}, 0)
         except AnalysisBroken as ex:
+            if 'control flow' in str(ex):
+                # a callee (rotate_zyz) special-cases some input: its own paths are judged by ROTATION rotate_zyz:* above and
+                # by C16; the composition algebra of this rule needs one closed form, which no longer exists
+                rep.cannot_decide('ROTATION', where(rot, site.get('l')), str(ex))
+                continue
             rep.add('ROTATION', mode + ':composition', where(rot, site.get('l')), 'the written vector is a composition of '
                     'rotate_zyz calls', False, str(ex))
             continue
@@ -681,15 +691,44 @@ def _mag_resolver(prog, fn, L, comp_of):
 
 def _polar_decomposition(rep, prog, rot, L, angles, pm):
     """find (theta, phi) locals that are the polar angles of the reference particle's momentum"""
-    th = [n for n, i in angles.items() if 'init' in L.decl[i] and astu.strip_casts(L.decl[i]['init']).get('k') == 'Call'
-          and astu.strip_casts(L.decl[i]['init'])['callee']['qn'] in ('acos', 'std::acos')]
-    ph = [n for n, i in angles.items() if 'init' in L.decl[i] and astu.strip_casts(L.decl[i]['init']).get('k') == 'Call'
-          and astu.strip_casts(L.decl[i]['init'])['callee']['qn'] in ('atan2', 'std::atan2')]
-    if len(th) != 1 or len(ph) != 1:
-        rep.add('ROTATION', 'target:reference-angles', where(rot), 'one acos(...) and one atan2(...) angle of the reference '
-                'momentum feed the first rotation', False, 'found %s / %s' % (th, ph))
+    def angle_def(i, fnames):
+        """('plain', call) for `double a = f(...)` never re-assigned; ('guarded', call, if-node, default) for
+        `double a = <literal>; if (c) { a = f(...); }` (one assignment, then-arm of an if without else)"""
+        d = L.decl[i]
+        asg = L.assigns.get(i, [])
+        init = astu.strip_casts(d['init']) if 'init' in d else None
+        if init is not None and init.get('k') == 'Call' and init['callee']['qn'] in fnames and not asg:
+            return ('plain', d['init'])
+        if init is not None and astu.num_value(init) is not None and len(asg) == 1 and asg[0]['op'] == '=':
+            b = astu.strip_casts(asg[0]['b'])
+            if b.get('k') == 'Call' and b['callee']['qn'] in fnames:
+                x = asg[0]
+                while id(x) in pm and pm[id(x)]['k'] in ('Expr', 'Compound', 'Paren'):
+                    x = pm[id(x)]
+                    if id(x) in pm and pm[id(x)]['k'] == 'If':
+                        par = pm[id(x)]
+                        if x is par.get('t') and not par.get('e'):
+                            return ('guarded', asg[0]['b'], par, astu.num_value(init))
+                        return None
         return None
-    tv, pv = L.decl[angles[th[0]]], L.decl[angles[ph[0]]]
+    thd = {n: angle_def(i, ('acos', 'std::acos')) for n, i in angles.items()}
+    phd = {n: angle_def(i, ('atan2', 'std::atan2')) for n, i in angles.items()}
+    th = [n for n, d in thd.items() if d]
+    ph = [n for n, d in phd.items() if d]
+    if len(th) != 1 or len(ph) != 1:
+        rep.cannot_decide('ROTATION', where(rot), 'target:reference-angles: the polar angles of the reference momentum are not each '
+                          'defined by one acos(...) / atan2(...) (plainly, or under one `if` with a literal default); found %s / %s' % (th, ph))
+        return None
+    tdef, pdef = thd[th[0]], phd[ph[0]]
+    tv, pv = dict(L.decl[angles[th[0]]]), dict(L.decl[angles[ph[0]]])
+    tv['init'], pv['init'] = tdef[1], pdef[1]
+    guard = None
+    if tdef[0] == 'guarded' or pdef[0] == 'guarded':
+        if tdef[0] != pdef[0] or tdef[2] is not pdef[2]:
+            rep.cannot_decide('ROTATION', where(rot, tv.get('l')), 'target:reference-angles: the two angles are not computed under '
+                              'the same condition')
+            return None
+        guard = (tdef[2], tdef[3], pdef[3])
     refs = set()
 
     def comp_of(e):
@@ -720,6 +759,40 @@ def _polar_decomposition(rep, prog, rot, L, angles, pm):
                 detail = 'reference particle is %s' % astu.src(i)
     rep.add('ROTATION', 'target:reference-angles', where(rot, tv.get('l')), '(%s, %s) are the polar angles acos(pz/|p|), '
             'atan2(py, px) of the momentum of particle [ref_particle_index]' % (th[0], ph[0]), ok and okref, detail)
+    if guard is not None and ok and okref:
+        # the default arm claims: the momentum points along (sin t0 cos f0, sin t0 sin f0, cos t0); for t0 = 0 that is +z, which
+        # the negated condition must establish - in particular the sign of the z component
+        ifn, t0, f0 = guard
+
+        def disj(c):
+            c = astu.strip_casts(c)
+            if c['k'] == 'Paren':
+                return disj(c['e'])
+            if c['k'] == 'Bin' and c['op'] == '||':
+                return disj(c['a']) + disj(c['b'])
+            return [c]
+
+        def tests_negative_z(c):
+            if c['k'] != 'Bin' or c['op'] not in ('<', '<=', '>', '>='):
+                return False
+            a, b = astu.strip_casts(c['a']), astu.strip_casts(c['b'])
+            if c['op'] in ('>', '>='):
+                a, b = b, a
+            try:
+                va = _FieldAlg(prog, resolver=res).ex(rot, a, {}, 0)
+            except AnalysisBroken:
+                return False
+            nb = astu.num_value(b)
+            return va == Poly.sym('vz') and nb is not None and nb <= 0
+        okd = t0 == 0 and any(tests_negative_z(c) for c in disj(ifn['c']))
+        rep.add('ROTATION', 'target:reference-angles:default', where(rot, ifn.get('l')),
+                'when `%s` is false the angles stay at (%s, %s), i.e. the reference momentum is taken to point along +z: the '
+                'condition must send a momentum along -z to the computed branch' % (astu.src(ifn['c']), t0, f0), okd,
+                None if okd else ['no disjunct of the condition tests the sign of the z component: a target momentum exactly '
+                                  'antiparallel to z keeps theta = 0 (instead of pi), is not brought onto the axis first, and ends '
+                                  'far outside the cone'])
+        if not okd:
+            return None
     return (th[0], ph[0]) if ok and okref else None
 
 
